@@ -45,9 +45,39 @@ def gen_cases(rng, names, stable, n_single, n_mixed, cls, cum_every=3, tmax=30, 
         cont = {c: float(10 ** rng.uniform(*scale)).hex() for c in chosen}
         tunit = rng.choice(U.TIME)
         cases.append({"cls": cls, "contents": cont, "unit": unit, "t": float(10 ** rng.uniform(-9, 12)).hex(), "tunit": tunit})
+    # tail cases: the decay time is chosen so that the parent's remaining amount N0 * 2^(-t/T) has a target
+    # magnitude spread uniformly (in log) over the whole range of normal doubles
+    import numpy as np, os
+    dd = np.load(os.path.join(C.REPO, "radioactivedecay/icrp107_ame2020_nubase2020/decay_data.npz"), allow_pickle=True)
+    hl = {str(n): h for n, h in zip(dd["nuclides"], dd["hldata"])}
+    secs = {"s": 1.0, "m": 60.0, "h": 3600.0, "d": 86400.0, "y": 86400.0 * 365.2422, "ms": 1e-3, "\u03bcs": 1e-6}
+    ntail = max(2, (n_single if only is None else len(only)) // 6)
+    for _ in range(ntail):
+        n = rng.choice(radio)
+        T = float(hl[n][0]) * secs[str(hl[n][1])]
+        amt = 10 ** rng.uniform(10, 30)
+        target = 10 ** rng.uniform(-305, math.log10(amt))
+        t = T * math.log2(amt / target)
+        cases.append({"cls": cls, "contents": {n: float(amt).hex()}, "unit": "num", "t": float(t).hex(), "tunit": "s", "kind": "tail"})
+    # history cases: earlier calculations and in-place changes on the same object before the measured decay
+    nhist = max(2, len(cases) // 8)
+    for _ in range(nhist):
+        a, b, c3 = rng.sample(radio, 3)
+        pre = [[rng.choice(["decay", "cumulative_decays", "series", "fractions"]), float(10 ** rng.uniform(0, 8)).hex()]]
+        r = rng.random()
+        if r < 0.4:
+            pre.append(["add", {b: float(10 ** rng.uniform(5, 20)).hex()}])
+        elif r < 0.6:
+            pre += [["add", {b: float(10 ** rng.uniform(5, 20)).hex()}], ["remove", a]]
+        elif r < 0.8:
+            pre += [["add", {b: float(1e10).hex(), c3: float(1e12).hex()}], ["remove_list", [b]]]
+        else:
+            pre += [["add", {b: float(1e10).hex()}], ["decay", float(1e3).hex()], ["subtract", {a: float(1.0).hex()}]]
+        cases.append({"cls": cls, "contents": {a: float(10 ** rng.uniform(8, 20)).hex()}, "unit": "num",
+                      "t": float(10 ** rng.uniform(0, 9)).hex(), "tunit": "s", "pre": pre, "kind": "history"})
     for i, c in enumerate(cases):
         c["cum"] = (i % cum_every == 0)
-        c["zero"] = (i % 10 == 0)
+        c["zero"] = (i % 10 == 0) and "pre" not in c
     return cases
 
 
@@ -75,7 +105,7 @@ def decay_stream(rng, cases, checker, tag, streams, viol, samples, what, shard=2
         if "err" in r:
             bad_prop.append((k, "decay raised " + r["err"]))
             continue
-        want = closure_of(names, progeny, list(c["contents"]))
+        want = closure_of(names, progeny, list(r["n0"]))
         if set(r["out"]) != want:
             bad_prop.append((k, f"nuclide set differs from the progeny closure: missing {sorted(want - set(r['out']))[:4]}, unexpected {sorted(set(r['out']) - want)[:4]}"))
         if not r["keys_sorted"]:
